@@ -38,9 +38,6 @@ func S_verify_TcbLogic() {
 	vp.Emit("body-3", verifyTdQuoteBody(body, &tdQuoteBodyOptions{tcbInfo: info, pckCertExtensions: ext}))
 	info.Fmspc = "50806f000001"
 	vp.Emit("body-4", verifyTdQuoteBody(body, &tdQuoteBodyOptions{tcbInfo: info, pckCertExtensions: ext}))
-	l, e := getMatchingTcbLevel([]pcs.TcbLevel{lvl(9, 0, 0, "UpToDate"), lvl(1, 0, 11, "SWHardeningNeeded")}, body, 11, ext.TCB.CPUSvnComponents)
-	vp.Emit("level-err", e)
-	vp.Emit("level-status", string(l.TcbStatus))
 	report := quote.SignedData.CertificationData.QeReportCertificationData.QeReport
 	id := &pcs.EnclaveIdentity{Miscselect: pcs.HexBytes{Bytes: []byte{0, 0, 0, 0}}, MiscselectMask: pcs.HexBytes{Bytes: []byte{255, 255, 255, 255}},
 		Attributes: pcs.HexBytes{Bytes: report.Attributes}, AttributesMask: pcs.HexBytes{Bytes: []byte{255, 255, 255, 255, 255, 255, 255, 255, 255, 255, 255, 255, 255, 255, 255, 255}},
@@ -51,10 +48,6 @@ func S_verify_TcbLogic() {
 	vp.Emit("qe-2", verifyQeReport(report, &qeReportOptions{qeIdentity: id}))
 	id.AttributesMask.Bytes = id.AttributesMask.Bytes[:15]
 	vp.Emit("qe-3", verifyQeReport(report, &qeReportOptions{qeIdentity: id}))
-	hb, e2 := getHeaderAndTdQuoteBodyInAbiBytes(quote)
-	vp.Emit("hdrbody-err", e2)
-	vp.Emit("hdrbody", hb)
-	vp.Emit("mask", applyMask([]byte{0xf0, 0x0f, 0xaa}, []byte{0x3c, 0x3c, 0xff}))
 	vp.Emit("url", pcs.TcbInfoURL(ext.FMSPC))
 	vp.Emit("crlurl", pcs.PckCrlURL("platform"))
 }
